@@ -1,81 +1,14 @@
 // vcheck — dispatcher of the runtime-monitoring checks (DESIGN.md §3).
 //
-//	vcheck <id> [--tier quick|thorough] [--seed N]     run a check (parent mode)
+//	vcheck <id> [quick|thorough] [--seed N]            run a check (parent mode)
 //	vcheck <id> --replay <file>                        re-execute one recorded case
 //	vcheck --child <id> <tier> <seed> <from> <to> <out> (internal)
 //	vcheck --list | --needs-race <id>
 package main
 
 import (
-	"fmt"
-	"os"
-	"strconv"
-
 	_ "verif/h/checks"
 	"verif/h/internal/core"
 )
 
-func main() {
-	args := os.Args[1:]
-	if len(args) == 0 {
-		fmt.Println("usage: vcheck <id> [--tier quick|thorough] [--seed N] [--replay file]")
-		os.Exit(2)
-	}
-	switch args[0] {
-	case "--list":
-		for _, id := range core.IDs() {
-			fmt.Println(id)
-		}
-		return
-	case "--needs-race":
-		if c := core.Get(args[1]); c != nil && c.Race {
-			fmt.Println("yes")
-		} else {
-			fmt.Println("no")
-		}
-		return
-	case "--needs-asan":
-		if c := core.Get(args[1]); c != nil && c.Asan {
-			fmt.Println("yes")
-		} else {
-			fmt.Println("no")
-		}
-		return
-	case "--child":
-		seed, _ := strconv.ParseUint(args[3], 10, 64)
-		from, _ := strconv.Atoi(args[4])
-		to, _ := strconv.Atoi(args[5])
-		os.Exit(core.ChildMain(args[1], args[2], seed, from, to, args[6]))
-	}
-	id := args[0]
-	tier := os.Getenv("VERIF_TIER")
-	if tier == "" {
-		tier = "quick"
-	}
-	seed := uint64(1)
-	if s := os.Getenv("VERIF_SEED"); s != "" {
-		if v, err := strconv.ParseUint(s, 10, 64); err == nil {
-			seed = v
-		}
-	}
-	replay := ""
-	for i := 1; i < len(args); i++ {
-		switch args[i] {
-		case "--tier":
-			i++
-			tier = args[i]
-		case "--seed":
-			i++
-			seed, _ = strconv.ParseUint(args[i], 10, 64)
-		case "--replay":
-			i++
-			replay = args[i]
-		case "quick", "thorough":
-			tier = args[i]
-		}
-	}
-	if replay != "" {
-		os.Exit(core.ReplayMain(id, replay))
-	}
-	os.Exit(core.ParentMain(id, tier, seed))
-}
+func main() { core.Main() }
